@@ -120,7 +120,7 @@ def tlc(module, cfg, workers=None, simulate=None, depth=None, seed=None, env=Non
     """Run TLC on spec/<module>.tla with spec/<cfg>. Returns TLCResult."""
     res = TLCResult()
     meta = workdir("tlc/%s-%d-%d" % (cfg.replace(".cfg", ""), os.getpid(), next(_counter)))
-    jopts = ["-XX:+UseSerialGC", "-Xmx" + xmx, "-Xss" + xss]   # measured: ParallelGC burns 20x more sys time
+    jopts = ["-XX:+UseSerialGC", "-Xmx" + xmx, "-Xss" + xss, "-Djava.io.tmpdir=" + meta]   # TLC leaves tlc-<n> dirs in tmpdir   # measured: ParallelGC burns 20x more sys time
     if deque:
         jopts.append("-Dtlc2.tool.queue.IStateQueue=StateDeque")
     if overrides:
